@@ -286,3 +286,399 @@ Proof.
   change ((2 * 128) mod q) with 256.
   apply unscale_256. exact Hc.
 Qed.
+
+(* ================================================================== *)
+(* the other direction: ntt (intt p) = p                               *)
+(* ================================================================== *)
+Lemma butterfly_rev_lo a b c z z' : 0 <= a < q -> 0 <= b < q -> 0 <= c < q -> 0 <= z < q -> 0 <= z' < q ->
+  (z * z') mod q = 1 ->
+  k_add ((c * k_add a b) mod q) (k_mul z ((c * k_mul z' (k_sub a b)) mod q)) = ((2 * c) mod q * a) mod q.
+Proof.
+  intros Ha Hb Hc Hz Hz' Hzz.
+  rewrite (k_sub_spec a b) by auto.
+  rewrite (k_mul_spec z') by (auto using mod_q_range).
+  rewrite (k_add_spec a b) by auto.
+  rewrite (k_mul_spec z) by (auto using mod_q_range).
+  rewrite k_add_spec by (auto using mod_q_range).
+  match goal with |- ?x mod q = ?y mod q => change (cong x y) end.
+  strip_mods.
+  assert (C : cong (z * z') 1) by (unfold cong; rewrite Hzz; reflexivity).
+  transitivity (c * (a + b) + (c * (a - b)) * (z * z')); [apply cong_eq; ring|].
+  rewrite C. apply cong_eq. ring.
+Qed.
+
+Lemma butterfly_rev_hi a b c z z' : 0 <= a < q -> 0 <= b < q -> 0 <= c < q -> 0 <= z < q -> 0 <= z' < q ->
+  (z * z') mod q = 1 ->
+  k_sub ((c * k_add a b) mod q) (k_mul z ((c * k_mul z' (k_sub a b)) mod q)) = ((2 * c) mod q * b) mod q.
+Proof.
+  intros Ha Hb Hc Hz Hz' Hzz.
+  rewrite (k_sub_spec a b) by auto.
+  rewrite (k_mul_spec z') by (auto using mod_q_range).
+  rewrite (k_add_spec a b) by auto.
+  rewrite (k_mul_spec z) by (auto using mod_q_range).
+  rewrite k_sub_spec by (auto using mod_q_range).
+  match goal with |- ?x mod q = ?y mod q => change (cong x y) end.
+  strip_mods.
+  assert (C : cong (z * z') 1) by (unfold cong; rewrite Hzz; reflexivity).
+  transitivity (c * (a + b) - (c * (a - b)) * (z * z')); [apply cong_eq; ring|].
+  rewrite C. apply cong_eq. ring.
+Qed.
+
+Lemma block_pair_rev lo hi c z z' : length lo = length hi -> canon lo -> canon hi ->
+  0 <= c < q -> 0 <= z < q -> 0 <= z' < q -> (z * z') mod q = 1 ->
+  let A := scale c (map2 k_add lo hi) in
+  let B := scale c (map (k_mul z') (map2 k_sub lo hi)) in
+  let t := map (k_mul z) B in
+  map2 k_add A t = scale ((2 * c) mod q) lo /\
+  map2 k_sub A t = scale ((2 * c) mod q) hi.
+Proof.
+  intros Hl Hlo Hhi Hc Hz Hz' Hzz. cbv zeta. revert hi Hl Hhi.
+  induction Hlo as [|a lo Ha Hlo IH]; intros hi Hl Hhi; destruct hi as [|b hi]; try discriminate; [split; reflexivity|].
+  inversion Hhi as [|? ? Hb Hhi']. subst. simpl in Hl. injection Hl as Hl.
+  destruct (IH hi Hl Hhi') as [I1 I2]. cbn [map map2 scale]. split.
+  - f_equal; [apply butterfly_rev_lo; auto | exact I1].
+  - f_equal; [apply butterfly_rev_hi; auto | exact I2].
+Qed.
+
+Lemma intt_blocks_props nb : forall len m p, length p = (nb * (2 * len))%nat -> canon p ->
+  length (intt_blocks nb len m p) = length p /\ canon (intt_blocks nb len m p).
+Proof.
+  induction nb as [|nb IH]; intros len m p Hl Hc.
+  - destruct p; [split; [reflexivity|constructor] | simpl in Hl; discriminate].
+  - cbn [intt_blocks].
+    set (lo := firstn len p). set (hi := firstn len (skipn len p)).
+    assert (Llo : length lo = len) by (unfold lo; rewrite firstn_length; lia).
+    assert (Lhi : length hi = len) by (unfold hi; rewrite firstn_length, skipn_length; lia).
+    assert (Clo : canon lo) by (apply canon_firstn; auto).
+    assert (Chi : canon hi) by (apply canon_firstn, canon_skipn; auto).
+    destruct (IH len (Nat.pred m) (skipn (2 * len) p)) as [L C];
+      [rewrite skipn_length; lia | apply canon_skipn; auto |].
+    split.
+    + rewrite !app_length, map_length, !map2_length, L, skipn_length by lia. lia.
+    + apply canon_app. split; [apply canon_map2_add; auto|].
+      apply canon_app. split; [|exact C].
+      apply canon_map_mul; [apply k_neg_range, zeta_at_range | apply canon_map2_sub; auto].
+Qed.
+
+Lemma layer_inverse_rev nb : forall len m m' p c,
+  length p = (nb * (2 * len))%nat -> canon p -> 0 <= c < q ->
+  (forall b, (b < nb)%nat -> (zeta_at (S m + b) * k_neg (zeta_at (m' - 1 - b))) mod q = 1) ->
+  ntt_blocks nb len m (scale c (intt_blocks nb len m' p)) = scale ((2 * c) mod q) p.
+Proof.
+  induction nb as [|nb IH]; intros len m m' p c Hl Hc Hcc Hp.
+  - destruct p; [reflexivity | simpl in Hl; discriminate].
+  - cbn [intt_blocks].
+    set (lo := firstn len p). set (hi := firstn len (skipn len p)). set (rest := skipn (2 * len) p).
+    assert (Ep : p = lo ++ hi ++ rest).
+    { unfold lo, hi, rest. rewrite <- (firstn_skipn len p) at 1. f_equal.
+      rewrite <- (firstn_skipn len (skipn len p)) at 1. f_equal.
+      rewrite skipn_add. f_equal. lia. }
+    assert (Llo : length lo = len) by (unfold lo; rewrite firstn_length; lia).
+    assert (Lhi : length hi = len) by (unfold hi; rewrite firstn_length, skipn_length; lia).
+    assert (Clo : canon lo) by (apply canon_firstn; auto).
+    assert (Chi : canon hi) by (apply canon_firstn, canon_skipn; auto).
+    assert (Crest : canon rest) by (apply canon_skipn; auto).
+    assert (Lrest : length rest = (nb * (2 * len))%nat) by (unfold rest; rewrite skipn_length; lia).
+    set (z' := k_neg (zeta_at (Nat.pred m'))).
+    rewrite !scale_app.
+    set (A := scale c (map2 k_add lo hi)). set (B := scale c (map (k_mul z') (map2 k_sub lo hi))).
+    assert (LA : length A = len) by (unfold A; rewrite scale_length, map2_length; lia).
+    assert (LB : length B = len) by (unfold B; rewrite scale_length, map_length, map2_length; lia).
+    cbn [ntt_blocks].
+    replace (firstn len (A ++ B ++ scale c (intt_blocks nb len (Nat.pred m') rest))) with A
+      by (rewrite firstn_app, LA, Nat.sub_diag, firstn_O, app_nil_r, <- LA, firstn_all; reflexivity).
+    replace (skipn len (A ++ B ++ scale c (intt_blocks nb len (Nat.pred m') rest)))
+      with (B ++ scale c (intt_blocks nb len (Nat.pred m') rest))
+      by (rewrite skipn_app, LA, Nat.sub_diag, <- LA, skipn_all; reflexivity).
+    replace (firstn len (B ++ scale c (intt_blocks nb len (Nat.pred m') rest))) with B
+      by (rewrite firstn_app, LB, Nat.sub_diag, firstn_O, app_nil_r, <- LB, firstn_all; reflexivity).
+    replace (skipn (2 * len) (A ++ B ++ scale c (intt_blocks nb len (Nat.pred m') rest)))
+      with (scale c (intt_blocks nb len (Nat.pred m') rest)).
+    2:{ rewrite app_assoc, skipn_app, app_length, LA, LB.
+        replace (2 * len - (len + len))%nat with 0%nat by lia.
+        rewrite skipn_all2 by (rewrite app_length; lia). reflexivity. }
+    set (z := zeta_at (S m)).
+    assert (Hzz : (z * z') mod q = 1).
+    { specialize (Hp 0%nat ltac:(lia)). rewrite Nat.add_0_r, Nat.sub_0_r in Hp.
+      replace (m' - 1)%nat with (Nat.pred m') in Hp by lia. exact Hp. }
+    destruct (block_pair_rev lo hi c z z') as [P1 P2]; auto; try lia.
+    { apply zeta_at_range. } { apply k_neg_range, zeta_at_range. }
+    cbv zeta in P1, P2. fold A B in P1, P2. rewrite P1, P2.
+    rewrite (IH len (S m) (Nat.pred m') rest c); auto.
+    + rewrite <- !scale_app, <- Ep. reflexivity.
+    + intros b Hb. specialize (Hp (S b) ltac:(lia)).
+      replace (S (S m) + b)%nat with (S m + S b)%nat by lia.
+      replace (Nat.pred m' - 1 - b)%nat with (m' - 1 - S b)%nat by lia. exact Hp.
+Qed.
+
+Lemma scale_inv256 p : canon p -> map (k_mul mldsa_inv256) p = scale mldsa_inv256 p.
+Proof.
+  intros H. unfold scale. apply map_ext_in. intros x Hx.
+  unfold canon in H. rewrite Forall_forall in H.
+  apply k_mul_spec; auto. unfold q. vm_compute. split; congruence.
+Qed.
+
+Ltac fold_c :=
+  match goal with |- context [scale ((2 * ?c) mod q)] =>
+    let c' := eval vm_compute in ((2 * c) mod q) in change ((2 * c) mod q) with c' end.
+
+Theorem ntt_intt p : length p = 256%nat -> canon p -> ntt (intt p) = p.
+Proof.
+  intros Hl Hc. rewrite intt_unfold, ntt_unfold.
+  destruct pairs_all as (K1 & K2 & K3 & K4 & K5 & K6 & K7 & K8).
+  destruct (intt_blocks_props 128 1 256 p) as [L1 C1]; [rewrite Hl; reflexivity | exact Hc |].
+  set (p1 := intt_blocks 128 1 256 p) in *.
+  destruct (intt_blocks_props 64 2 128 p1) as [L2 C2]; [rewrite L1, Hl; reflexivity | exact C1 |].
+  set (p2 := intt_blocks 64 2 128 p1) in *.
+  destruct (intt_blocks_props 32 4 64 p2) as [L3 C3]; [rewrite L2, L1, Hl; reflexivity | exact C2 |].
+  set (p3 := intt_blocks 32 4 64 p2) in *.
+  destruct (intt_blocks_props 16 8 32 p3) as [L4 C4]; [rewrite L3, L2, L1, Hl; reflexivity | exact C3 |].
+  set (p4 := intt_blocks 16 8 32 p3) in *.
+  destruct (intt_blocks_props 8 16 16 p4) as [L5 C5]; [rewrite L4, L3, L2, L1, Hl; reflexivity | exact C4 |].
+  set (p5 := intt_blocks 8 16 16 p4) in *.
+  destruct (intt_blocks_props 4 32 8 p5) as [L6 C6]; [rewrite L5, L4, L3, L2, L1, Hl; reflexivity | exact C5 |].
+  set (p6 := intt_blocks 4 32 8 p5) in *.
+  destruct (intt_blocks_props 2 64 4 p6) as [L7 C7]; [rewrite L6, L5, L4, L3, L2, L1, Hl; reflexivity | exact C6 |].
+  set (p7 := intt_blocks 2 64 4 p6) in *.
+  destruct (intt_blocks_props 1 128 2 p7) as [L8 C8]; [rewrite L7, L6, L5, L4, L3, L2, L1, Hl; reflexivity | exact C7 |].
+  rewrite scale_inv256 by exact C8.
+  assert (Hi : 0 <= mldsa_inv256 < q) by (unfold q; vm_compute; split; congruence).
+  rewrite (layer_inverse_rev 1 128 0 2 p7); [| rewrite L7, L6, L5, L4, L3, L2, L1, Hl; reflexivity | auto | exact Hi | apply pair_ok_spec; exact K8].
+  fold_c. unfold p7.
+  rewrite (layer_inverse_rev 2 64 1 4 p6); [| rewrite L6, L5, L4, L3, L2, L1, Hl; reflexivity | auto | unfold q; lia | apply pair_ok_spec; exact K7].
+  fold_c. unfold p6.
+  rewrite (layer_inverse_rev 4 32 3 8 p5); [| rewrite L5, L4, L3, L2, L1, Hl; reflexivity | auto | unfold q; lia | apply pair_ok_spec; exact K6].
+  fold_c. unfold p5.
+  rewrite (layer_inverse_rev 8 16 7 16 p4); [| rewrite L4, L3, L2, L1, Hl; reflexivity | auto | unfold q; lia | apply pair_ok_spec; exact K5].
+  fold_c. unfold p4.
+  rewrite (layer_inverse_rev 16 8 15 32 p3); [| rewrite L3, L2, L1, Hl; reflexivity | auto | unfold q; lia | apply pair_ok_spec; exact K4].
+  fold_c. unfold p3.
+  rewrite (layer_inverse_rev 32 4 31 64 p2); [| rewrite L2, L1, Hl; reflexivity | auto | unfold q; lia | apply pair_ok_spec; exact K3].
+  fold_c. unfold p2.
+  rewrite (layer_inverse_rev 64 2 63 128 p1); [| rewrite L1, Hl; reflexivity | auto | unfold q; lia | apply pair_ok_spec; exact K2].
+  fold_c. unfold p1.
+  rewrite (layer_inverse_rev 128 1 127 256 p); [| rewrite Hl; reflexivity | auto | unfold q; lia | apply pair_ok_spec; exact K1].
+  fold_c. apply scale_1. exact Hc.
+Qed.
+
+(* ================================================================== *)
+(* additivity: ntt (a + b) = ntt a + ntt b, intt likewise              *)
+(* ================================================================== *)
+Ltac kspec :=
+  repeat match goal with
+  | |- context [k_mul ?a ?b] => rewrite (k_mul_spec a b) by (auto using mod_q_range)
+  | |- context [k_add ?a ?b] => rewrite (k_add_spec a b) by (auto using mod_q_range)
+  | |- context [k_sub ?a ?b] => rewrite (k_sub_spec a b) by (auto using mod_q_range)
+  end.
+Ltac cong_ring :=
+  match goal with |- ?x mod q = ?y mod q => change (cong x y) end;
+  strip_mods; apply cong_eq; ring.
+
+Lemma lin_ct_lo la lb ha hb z : 0 <= la < q -> 0 <= lb < q -> 0 <= ha < q -> 0 <= hb < q -> 0 <= z < q ->
+  k_add (k_add la lb) (k_mul z (k_add ha hb)) = k_add (k_add la (k_mul z ha)) (k_add lb (k_mul z hb)).
+Proof. intros. kspec. cong_ring. Qed.
+Lemma lin_ct_hi la lb ha hb z : 0 <= la < q -> 0 <= lb < q -> 0 <= ha < q -> 0 <= hb < q -> 0 <= z < q ->
+  k_sub (k_add la lb) (k_mul z (k_add ha hb)) = k_add (k_sub la (k_mul z ha)) (k_sub lb (k_mul z hb)).
+Proof. intros. kspec. cong_ring. Qed.
+Lemma lin_gs_lo la lb ha hb : 0 <= la < q -> 0 <= lb < q -> 0 <= ha < q -> 0 <= hb < q ->
+  k_add (k_add la lb) (k_add ha hb) = k_add (k_add la ha) (k_add lb hb).
+Proof. intros. kspec. cong_ring. Qed.
+Lemma lin_gs_hi la lb ha hb z : 0 <= la < q -> 0 <= lb < q -> 0 <= ha < q -> 0 <= hb < q -> 0 <= z < q ->
+  k_mul z (k_sub (k_add la lb) (k_add ha hb)) = k_add (k_mul z (k_sub la ha)) (k_mul z (k_sub lb hb)).
+Proof. intros. kspec. cong_ring. Qed.
+Lemma lin_mul x y z : 0 <= x < q -> 0 <= y < q -> 0 <= z < q ->
+  k_mul z (k_add x y) = k_add (k_mul z x) (k_mul z y).
+Proof. intros. kspec. cong_ring. Qed.
+
+Ltac inv_canon :=
+  repeat match goal with H : canon (_ :: _) |- _ => inversion H; clear H; subst end;
+  repeat match goal with H : Forall _ (_ :: _) |- _ => inversion H; clear H; subst end.
+
+Lemma block_lin_ct z : 0 <= z < q -> forall la lb ha hb,
+  length la = length lb -> length la = length ha -> length la = length hb ->
+  canon la -> canon lb -> canon ha -> canon hb ->
+  let ta := map (k_mul z) ha in let tb := map (k_mul z) hb in
+  let ts := map (k_mul z) (map2 k_add ha hb) in
+  map2 k_add (map2 k_add la lb) ts = map2 k_add (map2 k_add la ta) (map2 k_add lb tb) /\
+  map2 k_sub (map2 k_add la lb) ts = map2 k_add (map2 k_sub la ta) (map2 k_sub lb tb).
+Proof.
+  intros Hz. cbv zeta. induction la as [|a la IH]; intros lb ha hb L1 L2 L3 C1 C2 C3 C4;
+    destruct lb, ha, hb; simpl in L1, L2, L3; try discriminate; [split; reflexivity|].
+  inv_canon. destruct (IH lb ha hb) as [I1 I2]; try lia; auto.
+  cbn [map map2]. split; f_equal; auto using lin_ct_lo, lin_ct_hi.
+Qed.
+
+Lemma block_lin_gs z : 0 <= z < q -> forall la lb ha hb,
+  length la = length lb -> length la = length ha -> length la = length hb ->
+  canon la -> canon lb -> canon ha -> canon hb ->
+  map2 k_add (map2 k_add la lb) (map2 k_add ha hb) = map2 k_add (map2 k_add la ha) (map2 k_add lb hb) /\
+  map (k_mul z) (map2 k_sub (map2 k_add la lb) (map2 k_add ha hb)) =
+    map2 k_add (map (k_mul z) (map2 k_sub la ha)) (map (k_mul z) (map2 k_sub lb hb)).
+Proof.
+  intros Hz. induction la as [|a la IH]; intros lb ha hb L1 L2 L3 C1 C2 C3 C4;
+    destruct lb, ha, hb; simpl in L1, L2, L3; try discriminate; [split; reflexivity|].
+  inv_canon. destruct (IH lb ha hb) as [I1 I2]; try lia; auto.
+  cbn [map map2]. split; f_equal; auto using lin_gs_lo, lin_gs_hi.
+Qed.
+
+Lemma firstn_map2 {A B C} (f : A -> B -> C) n a b : firstn n (map2 f a b) = map2 f (firstn n a) (firstn n b).
+Proof. revert a b; induction n as [|n IH]; intros a b; [reflexivity|]. destruct a, b; try reflexivity. cbn [firstn map2]. f_equal. apply IH. Qed.
+Lemma skipn_map2 {A B C} (f : A -> B -> C) n a b : skipn n (map2 f a b) = map2 f (skipn n a) (skipn n b).
+Proof.
+  revert a b; induction n as [|n IH]; intros a b; [reflexivity|].
+  destruct a as [|x a], b as [|y b]; cbn [skipn map2]; try reflexivity.
+  - destruct (skipn n a); reflexivity.
+  - apply IH.
+Qed.
+Lemma map2_app {A B C} (f : A -> B -> C) a1 a2 b1 b2 : length a1 = length b1 ->
+  map2 f (a1 ++ a2) (b1 ++ b2) = map2 f a1 b1 ++ map2 f a2 b2.
+Proof. revert b1; induction a1 as [|x a1 IH]; intros b1 H; destruct b1; simpl in *; try discriminate; auto. f_equal. apply IH. lia. Qed.
+
+Lemma ntt_blocks_add nb : forall len m a b,
+  length a = (nb * (2 * len))%nat -> length b = (nb * (2 * len))%nat -> canon a -> canon b ->
+  ntt_blocks nb len m (map2 k_add a b) = map2 k_add (ntt_blocks nb len m a) (ntt_blocks nb len m b).
+Proof.
+  induction nb as [|nb IH]; intros len m a b La Lb Ca Cb; [reflexivity|].
+  cbn [ntt_blocks]. rewrite !firstn_map2, !skipn_map2, firstn_map2.
+  set (la := firstn len a). set (ha := firstn len (skipn len a)).
+  set (lb := firstn len b). set (hb := firstn len (skipn len b)).
+  assert (L1 : length la = len) by (unfold la; rewrite firstn_length; lia).
+  assert (L2 : length ha = len) by (unfold ha; rewrite firstn_length, skipn_length; lia).
+  assert (L3 : length lb = len) by (unfold lb; rewrite firstn_length; lia).
+  assert (L4 : length hb = len) by (unfold hb; rewrite firstn_length, skipn_length; lia).
+  assert (K1 : canon la) by (unfold la; auto using canon_firstn).
+  assert (K2 : canon lb) by (unfold lb; auto using canon_firstn).
+  assert (K3 : canon ha) by (unfold ha; auto using canon_firstn, canon_skipn).
+  assert (K4 : canon hb) by (unfold hb; auto using canon_firstn, canon_skipn).
+  destruct (block_lin_ct (zeta_at (S m)) (zeta_at_range _) la lb ha hb) as [P1 P2]; try lia; auto.
+  cbv zeta in P1, P2. rewrite P1, P2.
+  rewrite IH by (rewrite ?skipn_length; auto using canon_skipn; lia).
+  rewrite !map2_app; [reflexivity | | ]; rewrite !map2_length; rewrite ?map_length; lia.
+Qed.
+
+Lemma intt_blocks_add nb : forall len m a b,
+  length a = (nb * (2 * len))%nat -> length b = (nb * (2 * len))%nat -> canon a -> canon b ->
+  intt_blocks nb len m (map2 k_add a b) = map2 k_add (intt_blocks nb len m a) (intt_blocks nb len m b).
+Proof.
+  induction nb as [|nb IH]; intros len m a b La Lb Ca Cb; [reflexivity|].
+  cbn [intt_blocks]. rewrite !firstn_map2, !skipn_map2, firstn_map2.
+  set (la := firstn len a). set (ha := firstn len (skipn len a)).
+  set (lb := firstn len b). set (hb := firstn len (skipn len b)).
+  assert (L1 : length la = len) by (unfold la; rewrite firstn_length; lia).
+  assert (L2 : length ha = len) by (unfold ha; rewrite firstn_length, skipn_length; lia).
+  assert (L3 : length lb = len) by (unfold lb; rewrite firstn_length; lia).
+  assert (L4 : length hb = len) by (unfold hb; rewrite firstn_length, skipn_length; lia).
+  assert (K1 : canon la) by (unfold la; auto using canon_firstn).
+  assert (K2 : canon lb) by (unfold lb; auto using canon_firstn).
+  assert (K3 : canon ha) by (unfold ha; auto using canon_firstn, canon_skipn).
+  assert (K4 : canon hb) by (unfold hb; auto using canon_firstn, canon_skipn).
+  destruct (block_lin_gs (k_neg (zeta_at (Nat.pred m))) (k_neg_range _ (zeta_at_range _)) la lb ha hb) as [P1 P2]; try lia; auto.
+  rewrite P1, P2.
+  rewrite IH by (rewrite ?skipn_length; auto using canon_skipn; lia).
+  rewrite !map2_app; [reflexivity | | ]; rewrite ?map_length, !map2_length; rewrite ?map_length; lia.
+Qed.
+
+Lemma padd_props a b : length a = length b -> canon a -> canon b ->
+  length (padd a b) = length a /\ canon (padd a b).
+Proof. intros L Ca Cb. unfold padd. split; [apply map2_length; auto | apply canon_map2_add; auto]. Qed.
+
+Theorem ntt_add a b : length a = 256%nat -> length b = 256%nat -> canon a -> canon b ->
+  ntt (padd a b) = padd (ntt a) (ntt b).
+Proof.
+  intros La Lb Ca Cb. rewrite !ntt_unfold. unfold padd.
+  destruct (ntt_blocks_props 1 128 0 a) as [A1 A1c]; [rewrite La; reflexivity | auto |].
+  destruct (ntt_blocks_props 1 128 0 b) as [B1 B1c]; [rewrite Lb; reflexivity | auto |].
+  rewrite (ntt_blocks_add 1 128 0 a b) by (auto; rewrite ?La, ?Lb; reflexivity).
+  set (a1 := ntt_blocks 1 128 0 a) in *. set (b1 := ntt_blocks 1 128 0 b) in *.
+  destruct (ntt_blocks_props 2 64 1 a1) as [A2 A2c]; [rewrite A1, La; reflexivity | auto |].
+  destruct (ntt_blocks_props 2 64 1 b1) as [B2 B2c]; [rewrite B1, Lb; reflexivity | auto |].
+  rewrite (ntt_blocks_add 2 64 1 a1 b1) by (auto; rewrite ?A1, ?B1, ?La, ?Lb; reflexivity).
+  set (a2 := ntt_blocks 2 64 1 a1) in *. set (b2 := ntt_blocks 2 64 1 b1) in *.
+  destruct (ntt_blocks_props 4 32 3 a2) as [A3 A3c]; [rewrite A2, A1, La; reflexivity | auto |].
+  destruct (ntt_blocks_props 4 32 3 b2) as [B3 B3c]; [rewrite B2, B1, Lb; reflexivity | auto |].
+  rewrite (ntt_blocks_add 4 32 3 a2 b2) by (auto; rewrite ?A2, ?B2, ?A1, ?B1, ?La, ?Lb; reflexivity).
+  set (a3 := ntt_blocks 4 32 3 a2) in *. set (b3 := ntt_blocks 4 32 3 b2) in *.
+  destruct (ntt_blocks_props 8 16 7 a3) as [A4 A4c]; [rewrite A3, A2, A1, La; reflexivity | auto |].
+  destruct (ntt_blocks_props 8 16 7 b3) as [B4 B4c]; [rewrite B3, B2, B1, Lb; reflexivity | auto |].
+  rewrite (ntt_blocks_add 8 16 7 a3 b3) by (auto; rewrite ?A3, ?B3, ?A2, ?B2, ?A1, ?B1, ?La, ?Lb; reflexivity).
+  set (a4 := ntt_blocks 8 16 7 a3) in *. set (b4 := ntt_blocks 8 16 7 b3) in *.
+  destruct (ntt_blocks_props 16 8 15 a4) as [A5 A5c]; [rewrite A4, A3, A2, A1, La; reflexivity | auto |].
+  destruct (ntt_blocks_props 16 8 15 b4) as [B5 B5c]; [rewrite B4, B3, B2, B1, Lb; reflexivity | auto |].
+  rewrite (ntt_blocks_add 16 8 15 a4 b4) by (auto; rewrite ?A4, ?B4, ?A3, ?B3, ?A2, ?B2, ?A1, ?B1, ?La, ?Lb; reflexivity).
+  set (a5 := ntt_blocks 16 8 15 a4) in *. set (b5 := ntt_blocks 16 8 15 b4) in *.
+  destruct (ntt_blocks_props 32 4 31 a5) as [A6 A6c]; [rewrite A5, A4, A3, A2, A1, La; reflexivity | auto |].
+  destruct (ntt_blocks_props 32 4 31 b5) as [B6 B6c]; [rewrite B5, B4, B3, B2, B1, Lb; reflexivity | auto |].
+  rewrite (ntt_blocks_add 32 4 31 a5 b5) by (auto; rewrite ?A5, ?B5, ?A4, ?B4, ?A3, ?B3, ?A2, ?B2, ?A1, ?B1, ?La, ?Lb; reflexivity).
+  set (a6 := ntt_blocks 32 4 31 a5) in *. set (b6 := ntt_blocks 32 4 31 b5) in *.
+  destruct (ntt_blocks_props 64 2 63 a6) as [A7 A7c]; [rewrite A6, A5, A4, A3, A2, A1, La; reflexivity | auto |].
+  destruct (ntt_blocks_props 64 2 63 b6) as [B7 B7c]; [rewrite B6, B5, B4, B3, B2, B1, Lb; reflexivity | auto |].
+  rewrite (ntt_blocks_add 64 2 63 a6 b6) by (auto; rewrite ?A6, ?B6, ?A5, ?B5, ?A4, ?B4, ?A3, ?B3, ?A2, ?B2, ?A1, ?B1, ?La, ?Lb; reflexivity).
+  set (a7 := ntt_blocks 64 2 63 a6) in *. set (b7 := ntt_blocks 64 2 63 b6) in *.
+  rewrite (ntt_blocks_add 128 1 127 a7 b7) by (auto; rewrite ?A7, ?B7, ?A6, ?B6, ?A5, ?B5, ?A4, ?B4, ?A3, ?B3, ?A2, ?B2, ?A1, ?B1, ?La, ?Lb; reflexivity).
+  reflexivity.
+Qed.
+
+Lemma map_mul_add z : 0 <= z < q -> forall a b, length a = length b -> canon a -> canon b ->
+  map (k_mul z) (map2 k_add a b) = map2 k_add (map (k_mul z) a) (map (k_mul z) b).
+Proof.
+  intros Hz. induction a as [|x a IH]; intros b L Ca Cb; destruct b; simpl in L; try discriminate; [reflexivity|].
+  inv_canon. cbn [map map2]. f_equal; [apply lin_mul; auto | apply IH; auto].
+Qed.
+
+Theorem intt_add a b : length a = 256%nat -> length b = 256%nat -> canon a -> canon b ->
+  intt (padd a b) = padd (intt a) (intt b).
+Proof.
+  intros La Lb Ca Cb. rewrite !intt_unfold. unfold padd.
+  set (a0 := a) in *. set (b0 := b) in *.
+  assert (A0 : length a0 = 256%nat) by exact La. assert (B0 : length b0 = 256%nat) by exact Lb.
+  assert (A0c : canon a0) by exact Ca. assert (B0c : canon b0) by exact Cb.
+  rewrite (intt_blocks_add 128 1 256 a0 b0) by (auto; rewrite ?A0, ?B0; reflexivity).
+  destruct (intt_blocks_props 128 1 256 a0) as [A1' A1c]; [rewrite A0; reflexivity | auto |].
+  destruct (intt_blocks_props 128 1 256 b0) as [B1' B1c]; [rewrite B0; reflexivity | auto |].
+  set (a1 := intt_blocks 128 1 256 a0) in *. set (b1 := intt_blocks 128 1 256 b0) in *.
+  assert (A1 : length a1 = 256%nat) by (rewrite A1'; exact A0).
+  assert (B1 : length b1 = 256%nat) by (rewrite B1'; exact B0).
+  rewrite (intt_blocks_add 64 2 128 a1 b1) by (auto; rewrite ?A1, ?B1; reflexivity).
+  destruct (intt_blocks_props 64 2 128 a1) as [A2' A2c]; [rewrite A1; reflexivity | auto |].
+  destruct (intt_blocks_props 64 2 128 b1) as [B2' B2c]; [rewrite B1; reflexivity | auto |].
+  set (a2 := intt_blocks 64 2 128 a1) in *. set (b2 := intt_blocks 64 2 128 b1) in *.
+  assert (A2 : length a2 = 256%nat) by (rewrite A2'; exact A1).
+  assert (B2 : length b2 = 256%nat) by (rewrite B2'; exact B1).
+  rewrite (intt_blocks_add 32 4 64 a2 b2) by (auto; rewrite ?A2, ?B2; reflexivity).
+  destruct (intt_blocks_props 32 4 64 a2) as [A3' A3c]; [rewrite A2; reflexivity | auto |].
+  destruct (intt_blocks_props 32 4 64 b2) as [B3' B3c]; [rewrite B2; reflexivity | auto |].
+  set (a3 := intt_blocks 32 4 64 a2) in *. set (b3 := intt_blocks 32 4 64 b2) in *.
+  assert (A3 : length a3 = 256%nat) by (rewrite A3'; exact A2).
+  assert (B3 : length b3 = 256%nat) by (rewrite B3'; exact B2).
+  rewrite (intt_blocks_add 16 8 32 a3 b3) by (auto; rewrite ?A3, ?B3; reflexivity).
+  destruct (intt_blocks_props 16 8 32 a3) as [A4' A4c]; [rewrite A3; reflexivity | auto |].
+  destruct (intt_blocks_props 16 8 32 b3) as [B4' B4c]; [rewrite B3; reflexivity | auto |].
+  set (a4 := intt_blocks 16 8 32 a3) in *. set (b4 := intt_blocks 16 8 32 b3) in *.
+  assert (A4 : length a4 = 256%nat) by (rewrite A4'; exact A3).
+  assert (B4 : length b4 = 256%nat) by (rewrite B4'; exact B3).
+  rewrite (intt_blocks_add 8 16 16 a4 b4) by (auto; rewrite ?A4, ?B4; reflexivity).
+  destruct (intt_blocks_props 8 16 16 a4) as [A5' A5c]; [rewrite A4; reflexivity | auto |].
+  destruct (intt_blocks_props 8 16 16 b4) as [B5' B5c]; [rewrite B4; reflexivity | auto |].
+  set (a5 := intt_blocks 8 16 16 a4) in *. set (b5 := intt_blocks 8 16 16 b4) in *.
+  assert (A5 : length a5 = 256%nat) by (rewrite A5'; exact A4).
+  assert (B5 : length b5 = 256%nat) by (rewrite B5'; exact B4).
+  rewrite (intt_blocks_add 4 32 8 a5 b5) by (auto; rewrite ?A5, ?B5; reflexivity).
+  destruct (intt_blocks_props 4 32 8 a5) as [A6' A6c]; [rewrite A5; reflexivity | auto |].
+  destruct (intt_blocks_props 4 32 8 b5) as [B6' B6c]; [rewrite B5; reflexivity | auto |].
+  set (a6 := intt_blocks 4 32 8 a5) in *. set (b6 := intt_blocks 4 32 8 b5) in *.
+  assert (A6 : length a6 = 256%nat) by (rewrite A6'; exact A5).
+  assert (B6 : length b6 = 256%nat) by (rewrite B6'; exact B5).
+  rewrite (intt_blocks_add 2 64 4 a6 b6) by (auto; rewrite ?A6, ?B6; reflexivity).
+  destruct (intt_blocks_props 2 64 4 a6) as [A7' A7c]; [rewrite A6; reflexivity | auto |].
+  destruct (intt_blocks_props 2 64 4 b6) as [B7' B7c]; [rewrite B6; reflexivity | auto |].
+  set (a7 := intt_blocks 2 64 4 a6) in *. set (b7 := intt_blocks 2 64 4 b6) in *.
+  assert (A7 : length a7 = 256%nat) by (rewrite A7'; exact A6).
+  assert (B7 : length b7 = 256%nat) by (rewrite B7'; exact B6).
+  rewrite (intt_blocks_add 1 128 2 a7 b7) by (auto; rewrite ?A7, ?B7; reflexivity).
+  destruct (intt_blocks_props 1 128 2 a7) as [A8' A8c]; [rewrite A7; reflexivity | auto |].
+  destruct (intt_blocks_props 1 128 2 b7) as [B8' B8c]; [rewrite B7; reflexivity | auto |].
+  set (a8 := intt_blocks 1 128 2 a7) in *. set (b8 := intt_blocks 1 128 2 b7) in *.
+  assert (A8 : length a8 = 256%nat) by (rewrite A8'; exact A7).
+  assert (B8 : length b8 = 256%nat) by (rewrite B8'; exact B7).
+  apply map_mul_add; auto; [unfold q; vm_compute; split; congruence | rewrite A8, B8; reflexivity].
+Qed.
